@@ -307,3 +307,36 @@ func TestRangeOverChannel(t *testing.T) {
 		t.Errorf("want only [1 2], got %v", o)
 	}
 }
+
+// TestCondLenAfter: the modelled sync.Cond, len(ch) and time.After.
+func TestCondLenAfter(t *testing.T) {
+	var seen string
+	body := func() {
+		var mu vsync.Mutex
+		c := vsync.NewCond(&mu)
+		ready := false
+		ch := make(chan int, 2)
+		rt.Go("producer", func() {
+			rt.Send(ch, 1)
+			mu.Lock()
+			ready = true
+			mu.Unlock()
+			c.Broadcast()
+		})
+		mu.Lock()
+		for !ready {
+			c.Wait()
+		}
+		mu.Unlock()
+		n := rt.ChanLen(ch)
+		s := rt.NewSelect(false)
+		a := rt.SelRecv(s, rt.After(1000))
+		_ = a
+		s.Wait()
+		seen = fmt.Sprint(n)
+	}
+	o := outcomes(t, 2, body, func() string { return seen })
+	if len(o) != 1 || o["1"] == 0 {
+		t.Errorf("want only outcome 1 (one buffered message, the wait ends, the timer fires), got %v", o)
+	}
+}
